@@ -209,6 +209,44 @@ class Renderer:
         return sub.render(s, e)
 
 
+def strip_tracing(text, where, log):
+    """R1 inside an unparsed macro body (select!): remove `tracing::level!(..)` statements textually"""
+    out = []
+    i = 0
+    pat = re.compile(r"tracing::(info|warn|error|debug|trace)!\s*\(")
+    while True:
+        m = pat.search(text, i)
+        if not m:
+            out.append(text[i:])
+            break
+        out.append(text[i:m.start()])
+        j = m.end()
+        depth = 1
+        while j < len(text) and depth > 0:
+            c = text[j]
+            if c == '"':
+                j += 1
+                while j < len(text) and text[j] != '"':
+                    j += 2 if text[j] == "\\" else 1
+            elif c == "(":
+                depth += 1
+            elif c == ")":
+                depth -= 1
+            j += 1
+        args = text[m.end():j - 1]
+        audit_r1(args, where)
+        k = j
+        while k < len(text) and text[k] in " \t":
+            k += 1
+        if k < len(text) and text[k] == ";":
+            j = k + 1
+        else:
+            out.append("()")
+        log(f"tracing::{m.group(1)}!(..) deleted inside select!")
+        i = j
+    return "".join(out)
+
+
 def parse_select(text):
     """splits the body of `tokio::select! { pat = fut => body, ... }` into arms -> [(pat, fut, body)]"""
     arms = []
@@ -514,6 +552,7 @@ class Unit:
 
                     def fsel(r, ed=ed, ts=ts, te=te, stmt=had_semi):
                         inner = r.render_inside(ed, ts, te)     # nested edits (R1, R10, ...) apply inside the arms
+                        inner = strip_tracing(inner, f"{relfile}:{line_of(src, ts)}", lambda note: self.log("R1", relfile, src, ts, note))
                         arms = parse_select(inner)
                         # cancellation: an arm that loses while it was reading a frame leaves the reader in a state allowed by
                         # next_frame's (proved) loop invariant - modelled by `cancelled_next_frame`
@@ -646,6 +685,19 @@ class Unit:
                 else:
                     ed.fn = (lambda r, ed=ed, sp_=sp_, hint=hint: "{ proof { " + hint + " } " + r.render_inside(ed, sp_[0], sp_[1]) + " }")
                 edits.append(ed)
+            # R18: `let x = loop { .. break v; .. };` -> `let x; loop { .. { x = v; break; } .. };` (Verus has no value-carrying break)
+            for ll in it.get("let_loops", []):
+                if not re.fullmatch(r"[A-Za-z_][A-Za-z0-9_]*", ll["name"]):
+                    raise Unsupported(f"{where}: `let <pattern> = loop` with a non-identifier pattern")
+                nm = ll["name"]
+                ty = dict(x.split(":", 1) for x in opts.get("r18ty", "").split(",") if ":" in x).get(nm)
+                edits.append(Edit(ll["pat"][1], ll["loop"][0], lambda r, ty=ty: (f": {ty}; " if ty else "; ")))
+                self.log("R18", relfile, src, ll["stmt"][0], f"`let {nm} = loop {{ .. break v; }}` -> deferred initialisation + plain break")
+                for vb in it.get("value_breaks", []):
+                    if vb["loop"] == ll["loop"]:
+                        ed = Edit(vb["span"][0], vb["span"][1], None)
+                        ed.fn = (lambda r, ed=ed, vb=vb, nm=nm: "{ " + nm + " = " + r.render_inside(ed, vb["value"][0], vb["value"][1]) + "; break; }")
+                        edits.append(ed)
             # R17: nested items are hoisted (emitted through their own directive) and removed from the body
             for ns, ne in it.get("nested_items", []):
                 edits.append(Edit(ns, ne, lambda r: ""))
